@@ -421,6 +421,36 @@ func windows() []window {
 		s.toRest(wt, true)
 	})
 
+	// W10: a release is queued on the pool mutex behind the death accounting of
+	// the connection it releases (the mutex is held meanwhile by another release
+	// parked in transfer): whatever release decided before it got the mutex is stale.
+	for _, nw := range []int{2, 3} {
+		nw := nw
+		add(fmt.Sprintf("release-queued-behind-death/waiters%d", nw), 2, func(s *script, max int) {
+			hs := s.fill(max)
+			var ws []*actor
+			for i := 0; i < nw; i++ {
+				wt := s.call()
+				s.toRest(wt, false)
+				ws = append(ws, wt)
+			}
+			h1, h2 := hs[0], hs[1]
+			k1 := s.connOf(h1)
+			s.finish(h2, nil)
+			if !s.toPoint(h2, hpTransfer) { // h2 now holds the pool mutex
+				return
+			}
+			s.kill(k1)        // Run returns, dead(k1) queues on the pool mutex
+			s.finish(h1, nil) // h1 parks at pool.release
+			s.step(h1)        // release(k1) runs up to the pool mutex and queues behind dead(k1)
+			s.toRest(h2, true)
+			for _, wt := range ws {
+				s.toRest(wt, true)
+			}
+			s.toRest(h1, true)
+		})
+	}
+
 	// W9: pop, then the popped connection dies before the Dead() check.
 	add("death-between-pop-and-check", 1, func(s *script, max int) {
 		hs := s.fill(max)
